@@ -4,6 +4,8 @@
 -/
 import Varlink.Service
 import VarlinkProofs.Lemmas.Basic
+import Varlink.Extracted.Code
+import Varlink.ExpectedCode
 namespace Varlink.C04
 open Varlink
 
@@ -228,5 +230,11 @@ example : route [str "org.example"] (str "org.example.a.Ping") = .notFound (str 
 example : route [str "org.example"] (str "Ping") = .invalidMethod := by decide
 example : route [str "org.example"] (str ".Ping") = .invalidMethod := by decide
 example : route [str "org.varlink.service"] (str "org.varlink.service.Nope") = .builtin (str "Nope") := by decide
+
+/-- **Tie to the source**: the declarations of /repo that this property's model transliterates
+    (`Extracted.codeNames_C04`) have, in the current working tree, exactly the fingerprints of the code the
+    model was validated against. Any change to them breaks this obligation; the check then searches the
+    correspondence streams for an input on which the changed code violates the property. -/
+theorem modelled_code_unchanged : Varlink.Extracted.code_C04 = Varlink.ExpectedCode.code_C04 := by decide
 
 end Varlink.C04
